@@ -43,6 +43,9 @@ pub enum JunkArg {
     Huge,
     ValidRelay,
     BadRelay,
+    /// a valid group id / pubkey / event id in hex with one multi-byte character inside, same
+    /// byte length as the valid value (u8 picks which value, width and offset)
+    SameLengthNonAscii(u8),
 }
 
 fn world_case(plan: &Plan, mode: Mode) -> Result<CaseReport, Failure> {
@@ -67,7 +70,7 @@ fn mutate_key_package(ev: &Event, keys: &Keys, other: &Keys, what: u8, how: u8) 
     let mut signer = keys.clone();
     let mut new_tags = tags.clone();
     let desc;
-    match what % 10 {
+    match what % 12 {
         0 => {
             // drop the n-th tag
             let i = how as usize % tags.len();
@@ -117,6 +120,44 @@ fn mutate_key_package(ev: &Event, keys: &Keys, other: &Keys, what: u8, how: u8) 
                 .iter()
                 .map(|t| if t.kind() == TagKind::i() { Tag::custom(TagKind::i(), ["ab".repeat(32)]) } else { t.clone() })
                 .collect();
+        }
+        10 => {
+            // same byte length, but a multi-byte character somewhere inside the value (code that
+            // checks `len()` and then slices by byte offsets must refuse this, not panic)
+            let i = how as usize % tags.len();
+            let k = tags[i].kind();
+            let vals: Vec<String> = tags[i].as_slice().iter().skip(1).cloned().collect();
+            let v = vals.first().cloned().unwrap_or_default();
+            let w = 2 + (how as usize / tags.len().max(1)) % 3;
+            if v.is_ascii() && v.len() >= w {
+                let o = (how as usize / 3) % (v.len() - w + 1);
+                let ch = ["\u{e9}", "\u{20ac}", "\u{1F600}"][w - 2];
+                let nv = format!("{}{}{}", &v[..o], ch, &v[o + w..]);
+                desc = format!("reshape tag {k:?}: {w}-byte character at byte offset {o} of a {}-byte value", v.len());
+                let mut all = vec![nv];
+                all.extend(vals.into_iter().skip(1));
+                new_tags[i] = Tag::custom(k, all);
+            } else {
+                desc = format!("reshape tag {k:?}: value replaced by non-ASCII text");
+                new_tags[i] = Tag::custom(k, ["\u{e9}\u{20ac}\u{1F600}".to_string()]);
+            }
+        }
+        11 => {
+            let i = how as usize % tags.len();
+            let k = tags[i].kind();
+            let vals: Vec<String> = tags[i].as_slice().iter().skip(1).cloned().collect();
+            let v = vals.first().cloned().unwrap_or_default();
+            let (nv, d): (Vec<String>, &str) = match (how as usize / tags.len().max(1)) % 7 {
+                0 => (vec![String::new()], "empty value"),
+                1 => (vec![], "no value at all"),
+                2 => (vec![v.to_uppercase()], "upper-cased value"),
+                3 => (vec![format!(" {v} ")], "value padded with spaces"),
+                4 => (vec![format!("{v}\u{0}")], "value with a trailing NUL"),
+                5 => (vec![v.repeat(2000)], "value repeated 2000 times"),
+                _ => (vec![v.clone(), v.clone(), "extra".into()], "additional values"),
+            };
+            desc = format!("reshape tag {k:?}: {d}");
+            new_tags[i] = Tag::custom(k, nv);
         }
         _ => {
             desc = "content bit flipped".into();
@@ -195,6 +236,21 @@ fn junk(a: &JunkArg, ctx: &BTreeMap<&'static str, String>) -> String {
         JunkArg::Huge => "A".repeat(200_000),
         JunkArg::ValidRelay => "wss://relay.example.com".into(),
         JunkArg::BadRelay => "http//not a url".into(),
+        JunkArg::SameLengthNonAscii(n) => {
+            let v = match n % 3 {
+                0 => ctx.get("gid").cloned().unwrap_or_default(),
+                1 => ctx.get("pk").cloned().unwrap_or_default(),
+                _ => "11".repeat(32),
+            };
+            let w = 2 + (*n as usize / 3) % 3;
+            if v.is_ascii() && v.len() >= w {
+                let o = (*n as usize / 9) % (v.len() - w + 1);
+                let ch = ["\u{e9}", "\u{20ac}", "\u{1F600}"][w - 2];
+                format!("{}{}{}", &v[..o], ch, &v[o + w..])
+            } else {
+                v
+            }
+        }
     }
 }
 
@@ -324,7 +380,8 @@ pub fn main(args: &Args) -> i32 {
     let junk = prop::sample::select(vec![
         JunkArg::Empty, JunkArg::OddHex, JunkArg::ShortHex, JunkArg::LongHex, JunkArg::NotHex, JunkArg::ValidGroupIdHex, JunkArg::ValidPubkeyHex,
         JunkArg::ValidEventIdHex, JunkArg::BrokenJson, JunkArg::WrongShapeJson, JunkArg::EventJsonWrongKind, JunkArg::DeepJson, JunkArg::Unicode,
-        JunkArg::Huge, JunkArg::ValidRelay, JunkArg::BadRelay,
+        JunkArg::Huge, JunkArg::ValidRelay, JunkArg::BadRelay, JunkArg::SameLengthNonAscii(1), JunkArg::SameLengthNonAscii(30), JunkArg::SameLengthNonAscii(77),
+        JunkArg::SameLengthNonAscii(140), JunkArg::SameLengthNonAscii(200), JunkArg::SameLengthNonAscii(251),
     ]);
     drive(
         args,
@@ -333,7 +390,7 @@ pub fn main(args: &Args) -> i32 {
         || {
             prop_oneof![
                 6 => plan_strategy(&opts, &weights, len.clone()).prop_map(Case::World),
-                1 => prop::collection::vec((0u8..10, any::<u8>()), 1..12).prop_map(|muts| Case::KeyPackage { muts }),
+                1 => prop::collection::vec((0u8..12, any::<u8>()), 1..12).prop_map(|muts| Case::KeyPackage { muts }),
                 2 => prop::collection::vec((0u8..24, prop::collection::vec(junk.clone(), 6)), 1..30).prop_map(|calls| Case::Bindings { calls }),
             ]
         },
